@@ -10,6 +10,8 @@ head = subprocess.check_output(['git', '-C', '/repo', 'rev-parse', 'HEAD'], text
 sys.path.insert(0, '/verif/rules')
 import inline
 fps = sorted({inline.closure_fp(b) for b in d['bodies'] if b['kind'] != 'Promoted' and re.search(r'::\{closure#', b['path'])})
-json.dump({'repo_head': head, 'count': len(defs), 'defs': defs, 'closure_fps': fps}, open('/verif/spec/known_defs.json', 'w'), indent=0)
+import canon
+snap = canon.snapshot(d)
+json.dump(dict({'repo_head': head, 'count': len(defs), 'defs': defs, 'closure_fps': fps}, **snap), open('/verif/spec/known_defs.json', 'w'), indent=0)
 print(len(fps), 'closure fingerprints')
 print(len(defs), 'defs at', head)
